@@ -49,6 +49,7 @@ class SimDevice:
                 cells = [[0, 0, 0, 0]] * (self.height * self.width)
             self.cells = [list(c) for c in cells]
         self.log = []            # applied requests
+        self.log_ordinals = []   # logical request ordinal of each log entry
         self.attempts = []       # every attempt incl. failed ones
         self.logical = 0         # ordinal of the logical request in progress
         self._fails_left = None
@@ -77,6 +78,7 @@ class SimDevice:
                         self.label, op))
         self.lan.charge(op)
         self.log.append(entry)
+        self.log_ordinals.append(self.logical)
         self.lan.log.append(entry)
         if self.lan.on_request is not None:
             self.lan.on_request(entry)
